@@ -877,7 +877,7 @@ parsec_list_nolock_push_sorted( parsec_list_t* list,
         /* compute the pivot without risking overflow
          * first, we compute the half point from the head and tail
          * second, we account for odd numbers by adding 1 if both were odd */
-        int pivot = (head_val/2) + (tail_val/2) + (((head_val%2) + (tail_val%2))) == 2 ? 1 : 0;
+        int pivot = (head_val/2) + (tail_val/2) + ((((head_val%2) + (tail_val%2)) == 2) ? 1 : 0);
         if (comp_val > pivot) {
             /* new element is in upper half of priority range */
             parsec_list_item_t* position = PARSEC_LIST_NOLOCK_ITERATOR(list, pos,
